@@ -37,6 +37,7 @@ def run(idx: Index, rep: Report, tier: str):
     check_trim_fold(idx, rep)
     check_trim_operator(idx, rep)
     check_bitflip_predicate(idx, rep)
+    check_truncation(idx, rep)
     f = idx.function(f"{Z2T}::get_z2_taper_function.do_taper") if idx.has_function(f"{Z2T}::get_z2_taper_function.do_taper") else None
     for fn in idx.module_by_relpath(Z2T).functions.values():
         for n in own_nodes(fn.node):
@@ -291,8 +292,14 @@ class _QOp:
         return self._scaled(k)
     __rmul__ = __mul__
 
-    def compress(self, *a, **k):
-        self.terms = {w: v for w, v in self.terms.items() if sp.simplify(v) != 0}
+    def compress(self, abs_tol=1e-8):
+        """as openfermion's SymbolicOperator.compress: terms whose coefficient is within abs_tol of zero are removed"""
+        def gone(v):
+            if isinstance(v, (int, float, complex)):
+                return abs(v) <= abs_tol
+            v = sp.simplify(v)
+            return v == 0 or (v.is_number and abs(complex(v)) <= abs_tol)
+        self.terms = {w: v for w, v in self.terms.items() if not gone(v)}
 
     def __add__(self, o):
         r = _QOp()
@@ -369,3 +376,63 @@ def check_trim_operator(idx: Index, rep: Report):
     t = full(g.node)
     ok = "trimmed_circuit, trim_states = trim_trivial_circuit(circuit)" in t and "trim_trivial_operator(operator, trim_states, circuit.width, reindex=True)" in t
     rep.decide(ok, rule, g, g.node, text="operator trimmed with the states found for the circuit, on the circuit's width", what="operator and circuit are trimmed consistently", reason="wiring changed")
+
+
+# ---------------------------------------------------------------------------------------------------
+def check_truncation(idx: Index, rep: Report):
+    """Norm-based truncation.  The discarded part D of the operator moves no eigenvalue by more than its operator norm (Weyl), and
+    ||D||_op <= ||D||_F = sqrt(2^n * sum |c|^2).  So the stated bound holds for every operator iff what the routine discards has
+    sqrt(sum |c|^2) <= epsilon / sqrt(2^n), and the bound is attained (rank-one D, e.g. equal coefficients on all Z-strings), so the
+    condition is also necessary.  Decided in two parts: (a) the divisor applied to epsilon, folded for 1..10 qubits, is at least
+    sqrt(2^n); (b) the routine folded on operators with adversarial term-size profiles discards a part within that budget, keeps every
+    other term with its coefficient, and does nothing else."""
+    rule = "K9.truncation-bound"
+    import math
+    from ..consteval import Folder, Raised, Undecidable
+    from ..rules.circuitsem import make_folder
+    OPS = "tangelo/toolboxes/operators/operators.py"
+    f = idx.function(f"{OPS}::QubitOperator.frobenius_norm_compression")
+    fac = [n for n in own_nodes(f.node) if isinstance(n, ast.Assign) and isinstance(n.targets[0], ast.Name) and "n_qubits" in norm(n.value)]
+    if len(fac) != 1:
+        raise AnalysisError("frobenius_norm_compression: the divisor of epsilon (a single assignment depending on n_qubits) not found")
+    bad = []
+    for n in range(1, 11):
+        try:
+            v = Folder(env={"n_qubits": n}).expr(fac[0].value)
+        except (Undecidable, Raised) as e:
+            raise AnalysisError(f"frobenius_norm_compression: divisor {norm(fac[0].value)} not foldable: {e}")
+        if float(v) ** 2 < 2 ** n * (1 - 1e-12):
+            bad.append(f"n={n}: divisor {float(v):g} < sqrt(2^n) = {math.sqrt(2 ** n):g}")
+    rep.decide(not bad, rule, f, fac[0], text=f"epsilon is divided by at least sqrt(2^n) for n = 1..10 ({norm(fac[0].value)})",
+               what="the budget for the discarded coefficients is epsilon / sqrt(2^n), on odd register sizes too (otherwise equal small coefficients on all Z-strings move an eigenvalue by sqrt(2) epsilon)",
+               reason="; ".join(bad[:3]))
+    # (b) folded on term-size profiles
+    words3 = [tuple((i, p) for i, p in enumerate(w) if p != "I") for w in itertools.product("IXYZ", repeat=3)]
+    eps = 1e-2
+    profiles = {
+        "many terms each far below the budget, jointly above it": [eps / 400.] * 40 + [0.5, -0.7, 1.1],
+        "equal small coefficients on eight words next to large ones": [eps / (2 * math.sqrt(8)) * 0.999] * 8 + [10., 10.],
+        "geometric tail": [eps * 0.6 ** k for k in range(1, 30)] + [2.0],
+        "all terms large": [0.3, -0.4, 0.5, 0.6],
+        "all terms tiny": [eps / 1000.] * 12,
+        "mixed signs and complex": [1e-4, -2e-4, 3e-4j, -1e-3, 2e-3, 0.25, -0.5j],
+    }
+    for label, coefs in profiles.items():
+        for nq in (3, 4):
+            op = _QOp()
+            for w, c in zip(words3, coefs):
+                op.terms[w] = c
+            before = dict(op.terms)
+            fo = make_folder(idx, OPS, ctors={"OrderedDict": lambda a, k: dict(*a, **k)})
+            try:
+                fo.run_function(f.node, {"self": op, "epsilon": eps, "n_qubits": nq})
+            except (Undecidable, Raised) as e:
+                raise AnalysisError(f"frobenius_norm_compression not foldable ({label}): {e}")
+            after = dict(op.terms)
+            dropped = {w: c for w, c in before.items() if w not in after}
+            altered = [w for w, c in after.items() if w not in before or before[w] != c]
+            fnorm = math.sqrt(2 ** nq * sum(abs(complex(c)) ** 2 for c in dropped.values()))
+            ok = not altered and fnorm <= eps * (1 + 1e-9)
+            rep.decide(ok, rule, f, f.node, text=f"{label}, {nq} qubits: {len(dropped)} of {len(before)} terms discarded",
+                       what="the discarded part has Frobenius norm at most epsilon (so no eigenvalue moves by more), every kept term keeps its coefficient",
+                       reason=(f"discarded part has Frobenius norm {fnorm:.4g} > epsilon = {eps:g}; " if fnorm > eps * (1 + 1e-9) else "") + (f"terms altered: {altered[:2]}" if altered else ""))
